@@ -337,6 +337,10 @@ class Ctx:
                     print(f"KNOWN-FINDING: property={self.pid} {f.get('what', what)} [{key}]", flush=True)
                     self.known_printed.append(key)
                 return "known"
+        if key in self.extra.setdefault("violation_keys", {}):
+            self.extra["violation_keys"][key] += 1   # one VIOLATION line per distinct failure key
+            return "violation"
+        self.extra["violation_keys"][key] = 1
         rp = dict(replay)
         rp.update(kind="property-failure", key=key, what=what)
         self.violation(re.sub(r"[^A-Za-z0-9_.=-]+", "_", key)[:60], rp)
@@ -355,8 +359,8 @@ class Ctx:
         base = {"kind": "correspondence-break", "component": component, "case": case, "implementation": impl, "model": model, "note": note}
         if res is not None:
             key, what, rp = res
-            base.update(rp or {})
             base["failing_input"] = case
+            base.update(rp or {})
             return self.property_failure(key, what, base)
         base["unchecked"] = f"correspondence {component} (model vs /repo) no longer agrees; property oracle found no failing input at or around this case"
         self.violation("corr-" + component, base, no_failing_input=True)
